@@ -178,6 +178,15 @@ pub fn run_compiled(c: &Compiled, dir: &Path, timeout: Duration, run_ts: bool) -
   w("__all__.wasm", &c.wasm);
   w("main.wasm.js", c.wasm_js.as_bytes());
   w("main.ts", c.ts.as_bytes());
+  // samlang-level coverage measurement (vlib/coverage_sam.py): keep a copy of the emitted TypeScript
+  // under $SAMVERIF_SAM_COV/src/<path with '/' -> '_'> so that V8 coverage offsets (NODE_V8_COVERAGE,
+  // inherited by the node processes below) can be mapped back to text after `dir` is removed.
+  if let Some(d) = std::env::var_os("SAMVERIF_SAM_COV") {
+    let keep = Path::new(&d).join("src");
+    let _ = std::fs::create_dir_all(&keep);
+    let name = dir.join("main.ts").to_string_lossy().replace('/', "_");
+    let _ = std::fs::write(keep.join(name), c.ts.as_bytes());
+  }
   let wasm = run_node(&node, dir, &["main.wasm.js"], timeout);
   let ts = if run_ts {
     run_node(&node, dir, &["--experimental-strip-types", "--no-warnings", "main.ts"], timeout)
